@@ -328,6 +328,7 @@ func c14alt(sc *sim.Scenario, env *sim.Env) *sim.Violation {
 	}
 	ss := sim.NewSink(env, int(sc.C("sink"))&3, int(sc.C("sinkk"))*4)
 	var strLines []string
+	var kept, keptCopy [][]byte
 	run := func(traced bool) (Regs, *SimMem, []preStep, [][]byte, bool, string) {
 		mem := mkMem()
 		var holeLo, holeHi uint32
@@ -358,7 +359,14 @@ func c14alt(sc *sim.Scenario, env *sim.Env) *sim.Violation {
 					}
 				}
 				recs = append(recs, preStep{r, ins})
-				if traced {
+				if ca, ok := mc.CPU.(cpuA); ok && traced && i%2 == 1 {
+					// a caller that offers no buffer and keeps what it gets back
+					got := ca.TraceNoBuffer()
+					kept = append(kept, got)
+					keptCopy = append(keptCopy, append([]byte{}, got...))
+					_, _ = ss.Write(got)
+					lines = append(lines, append([]byte{}, got...))
+				} else if traced {
 					before := len(ss.Cur)
 					mc.CPU.Trace(ss)
 					lines = append(lines, append([]byte{}, ss.Cur[before:]...))
@@ -390,6 +398,12 @@ func c14alt(sc *sim.Scenario, env *sim.Env) *sim.Violation {
 	if d := regsA.Diff(regsB, true); d != "" {
 		return &sim.Violation{Oracle: "tracing_perturbs_registers", Step: -1, Msg: "cpualt traced vs untraced final state: " + d}
 	}
+	for i := range kept {
+		if string(kept[i]) != string(keptCopy[i]) {
+			return &sim.Violation{Oracle: "trace_line_overwritten", Step: i, Msg: fmt.Sprintf("a trace line returned to the caller (%q) was later overwritten by the library (now %q): it no longer describes its instruction", strings.TrimSpace(string(keptCopy[i])), strings.TrimSpace(string(kept[i])))}
+		}
+	}
+	st.ProbeIf(len(kept) > 0, "trace_lines_kept_by_caller")
 	if hashStore(0, memA) != hashStore(0, memB) {
 		return &sim.Violation{Oracle: "tracing_perturbs_memory", Step: -1, Msg: "cpualt traced and untraced runs leave different memory"}
 	}
